@@ -9,7 +9,8 @@ RULE = ("case = one generated C01-fragment program (no choice-domain, no auto-in
         "schedule-perturbation hook (random yields/spins at lock acquisition, lease and parallel-loop iteration points, "
         "SOUFFLE_VERIF_SCHED=<seed>:<1/p>); oracle = every output CSV equal as a set to the -j1 output, no duplicate "
         "lines, no abort/sanitizer report; a subset of cases runs on the ASan+UBSan tree. non-trivial = distinct program with "
-        "derived tuples in which >= 2 worker threads passed a perturbation point in at least one variant run (hook counters).")
+        "derived tuples in which >= 2 worker threads passed a perturbation point in at least one variant run (hook counters). A "
+        "compile-bound sample does the same with the executable `souffle -o -j4` builds (generated code compiled with the guard on).")
 
 JS = [2, 3, 4, 8, 16]
 
@@ -48,6 +49,74 @@ def worker(arg):
     return dc.run_case("C03", seed, souffle, variants, cfg_fn=cfg_fn, baseline_args=["-j1"], probe=probe)
 
 
+def compiled_worker(arg):
+    """the same property for a compiled executable: generated with -j4 (otherwise the synthesiser emits no parallel loops), run at -j1 and
+    at three other thread counts with the perturbation hook (the generated code is compiled with the guard on)"""
+    seed, souffle = arg
+    from . import compiled
+    from gen import progen, dl
+    rng = random.Random(seed)
+    prog = progen.generate(seed, cfg_fn(rng))
+    text = dl.fmt_program(prog)
+    rec = dict(seed=seed, hash=runner.prog_hash(text), features=sorted(prog.features) + ["compiled"], counts={})
+    d = runner.case_dir("C03", seed)
+    rec["dir"] = d
+    runner.write_case(d, prog, text=text)
+    r, ck = compiled.build_exe(souffle, d, jobs=4)
+    rec["counts"]["compiles"] = 1
+    if ck is not None or r.rc != 0:
+        rec.update(status="skip", reason="compile-failed (C02)")
+        return rec
+    rb, ck = compiled.run_exe(d, outdir="cj1", jobs=1)
+    if ck is not None or rb.rc != 0:
+        rec.update(status="skip", reason="compiled-baseline-failed (C02)")
+        return rec
+    base, problems = runner.read_outputs(d, prog, outdir="cj1")
+    if problems:
+        rec.update(status="skip", reason="baseline-output-unreadable")
+        return rec
+    viols = []
+    tags = dc.shape_tags(prog)
+    T = ("|" + ",".join(tags)) if tags else ""
+    eff = 0
+    for j in rng.sample(JS, 3):
+        od = "cj%d" % j
+        env = {"SOUFFLE_VERIF_SCHED": "%d:%d" % (rng.randrange(1, 1 << 30), rng.choice([2, 8, 64])), "SOUFFLE_VERIF_SCHED_LOG": os.path.join(d, "csched.%d.log" % j)}
+        rr, ck = compiled.run_exe(d, outdir=od, jobs=j, env=env)
+        rec["counts"]["variant_runs"] = rec["counts"].get("variant_runs", 0) + 1
+        if ck is not None:
+            viols.append(("threads-compiled:crash:" + ck + T, "the compiled program died at -j%d (%s) where -j1 ran fine\n%s\n%s" % (j, ck, rr.err[-2000:], text)))
+            continue
+        if rr.rc != 0:
+            viols.append(("threads-compiled:error-exit" + T, "the compiled program exited with %s at -j%d\n%s\n%s" % (rr.rc, j, rr.err[-1200:], text)))
+            continue
+        outs, problems = runner.read_outputs(d, prog, outdir=od)
+        for p in problems:
+            viols.append(("threads-compiled:output:" + p.split(" ")[0] + T, "-j%d: %s\n%s" % (j, p, text)))
+        diffs = runner.diff_outputs(prog, outs, base, ("-j%d" % j, "-j1"))
+        if diffs:
+            viols.append(("threads-compiled:wrong-result" + T, "the compiled program's outputs at -j%d differ from -j1:\n  %s\n%s" % (j, "\n  ".join(diffs), text)))
+        try:
+            with open(env["SOUFFLE_VERIF_SCHED_LOG"]) as f:
+                m = re.search(r"threads=(\d+)", f.read())
+            if m and int(m.group(1)) >= 2:
+                eff += 1
+        except OSError:
+            pass
+    rec["counts"]["compiled_runs_with_ge2_threads"] = eff
+    rec["nontrivial"] = eff > 0 and any(len(v) for k, v in base.items() if not k.startswith("e"))
+    if viols:
+        rec.update(status="viol", viols=viols[:3], program=text)
+    else:
+        rec.update(status="ok", sample=None)
+    return rec
+
+
+def any_worker(arg):
+    kind, seed, souffle = arg
+    return compiled_worker((seed, souffle)) if kind == "compiled" else worker((seed, souffle))
+
+
 def check(tier, seed):
     t = pc.trees("plain", "san")
     n = 400 if tier == "quick" else 2400
@@ -55,9 +124,12 @@ def check(tier, seed):
     res = Result("exploration")
     res.rule = RULE
     base = seed * 1000000 + (0 if tier == "quick" else 50000) + 300000
-    recs = runner.pmap(worker, [(base + i, t["plain"]) for i in range(n)] + [(base + n + i, t["san"]) for i in range(nsan)], nproc=8)
+    ncomp = 8 if tier == "quick" else 96
+    jobs = [("compiled", base + 900000 + i, t["plain"]) for i in range(ncomp)]
+    jobs += [("interp", base + i, t["plain"]) for i in range(n)] + [("interp", base + n + i, t["san"]) for i in range(nsan)]
+    recs = runner.pmap(any_worker, jobs, nproc=8)
     dc.finish("C03", recs, res, n)
     res.assumptions = ["interleavings are those the OS scheduler plus injected yields/spins produce on 16 cores, not all interleavings",
-                       "interpreter only; compiled executables are not exercised by this check",
+                       "compiled executables: a small compile-bound sample per run (8 quick / 96 thorough)",
                        "programs are samples of the generator's distribution"]
     return res
